@@ -1128,7 +1128,7 @@ func callBuiltin(caller *frame, callpos token.Pos, fn *ssa.Builtin, args []value
 		}
 	}
 
-	panic(engineBug{"unknown built-in: " + fn.Name()})
+	panic(engineBug{fmt.Sprintf("unknown built-in or argument shape: %s(%T...) in %s", fn.Name(), args[0], caller.fn)})
 }
 
 func rangeIter(fr *frame, x value, t types.Type) iter {
